@@ -85,6 +85,9 @@ pub fn benign_io(s: &mut ExecSpec, rng: &mut Rng) {
     if rng.chance(1, 5) {
         io.stdout_eintr_every = Some(rng.range(2, 9) as u32);
     }
+    if rng.chance(1, 4) {
+        io.clock_jumps = Some(rng.next_u64());
+    }
     // keep disruptive fields as they are
     io.eio_at = s.io.eio_at;
     io.eof_at = s.io.eof_at;
